@@ -2,7 +2,7 @@ mod abs;
 mod absworld;
 mod build;
 mod common;
-mod fcheck;
+mod fcx;
 mod props;
 mod rng;
 mod sexp;
@@ -21,7 +21,7 @@ fn main() {
     return;
   }
   if args[1] == "fcprobe" {
-    fcheck::probe(&args[2..]);
+    fcx::probe(&args[2..]);
     return;
   }
   let prop = args[1].clone();
